@@ -33,6 +33,9 @@ type obligation struct {
 	Witnesses []string
 	Solver    string // "" = z3; "cvc5" for FP-heavy obligations
 	RecursionLimits map[string]int
+	// self test only: violations that MUST be found and reproduced natively; solvers to diff
+	Expect      []string
+	DiffSolvers []string
 	// AllowPanics: target panics on a path are findings of this property
 	// (default true: any reachable panic of the real code is reported).
 }
@@ -45,6 +48,7 @@ type property struct {
 	Encoded     []string // real functions the claim is about (must be executed ≥ once)
 	Intercepted []string
 	NoInstr     bool
+	SelfTest    bool // the engine's own regression suite (vcheck selftest): no evidence file, expected violations
 }
 
 type knownFinding struct {
@@ -189,6 +193,7 @@ func cmdRun(args []string) int {
 	exit := 0
 	replayDir := filepath.Join(verifDir, "replays", id)
 	knownPrinted := map[string]bool{}
+	expectSeen := map[string]bool{}
 
 	for _, ob := range prop.Obligations {
 		if *only != "" && ob.Entry != *only {
@@ -283,6 +288,21 @@ func cmdRun(args []string) int {
 				note(fmt.Sprintf("counterexample for %s did not reproduce natively (%s) — encoding or stub wrong; replay=%s", v.ID, firstLine(why), rpath))
 				continue
 			}
+			if prop.SelfTest {
+				want := false
+				for _, e := range ob.Expect {
+					if e == v.ID {
+						want = true
+					}
+				}
+				if want {
+					if !expectSeen[ob.Entry+"/"+v.ID] {
+						expectSeen[ob.Entry+"/"+v.ID] = true
+						fmt.Fprintf(os.Stderr, "  expected violation %s found, reproduced natively (%s)\n", v.ID, traceString(v.Trace))
+					}
+					continue
+				}
+			}
 			if kf := known.match(id, v); kf != nil {
 				if !knownPrinted[kf.What] {
 					knownPrinted[kf.What] = true
@@ -322,7 +342,7 @@ func cmdRun(args []string) int {
 					case len(nr.Failed) > 0:
 						why = "native assertion failure on a path the engine passed: " + strings.Join(nr.Failed, ",")
 					case !sameEvents(nr.Events, m.Events):
-						why = fmt.Sprintf("event logs differ: native %v vs engine %v", nr.Events, m.Events)
+						why = "event logs differ: " + firstEventDiff(nr.Events, m.Events)
 					default:
 						okOnce = true
 					}
@@ -334,6 +354,22 @@ func cmdRun(args []string) int {
 					os.MkdirAll(replayDir, 0o755)
 					os.WriteFile(filepath.Join(replayDir, fmt.Sprintf("xval_mismatch_%s_%d.json", ob.Entry, k)), b, 0o644)
 				}
+			}
+		}
+		for _, e := range ob.Expect {
+			if !expectSeen[ob.Entry+"/"+e] {
+				note("SELFTEST: expected violation " + e + " was not found (or not reproduced): the pipeline is blind to it")
+			}
+		}
+		for _, other := range ob.DiffSolvers {
+			cfg2 := cfg
+			cfg2.Solver = other
+			cfg2.SampleModels = 0
+			rep2 := symx.Explore(l.prog, sh, f, cfg2)
+			if d := diffVerdicts(rep.AssertCounts, rep2.AssertCounts); d != "" || rep.Paths != rep2.Paths || len(rep2.EngineErrors) > 0 {
+				note(fmt.Sprintf("SELFTEST: solver %s disagrees with %s: %s (paths %d vs %d, engine errors %d)", other, firstNonEmpty(ob.Solver, "z3"), d, rep2.Paths, rep.Paths, len(rep2.EngineErrors)))
+			} else {
+				fmt.Fprintf(os.Stderr, "  solver diff %s vs %s on %s: identical verdicts (%d paths)\n", firstNonEmpty(ob.Solver, "z3"), other, ob.Entry, rep2.Paths)
 			}
 		}
 		if obOK {
@@ -404,7 +440,9 @@ func cmdRun(args []string) int {
 	}
 	ev.Coverage.Explanation = "bounded symbolic execution of the repo's go/ssa (rebuilt from /repo's working tree) with z3 deciding every branch feasibility and assertion; states = explored paths, transitions = branch decisions + assertion evaluations; see DESIGN.md §7 " + id
 	ev.Coverage.TrustedBase = []string{"go/packages+go/ssa x/tools v0.50.0", "symx interpreter and intrinsics", "z3 4.8.12", "environment models in /verif/harness"}
-	if err := writeEvidence(ev); err != nil {
+	if prop.SelfTest {
+		// no evidence file: the self test is not a property
+	} else if err := writeEvidence(ev); err != nil {
 		fmt.Fprintln(os.Stderr, "ENGINE-ERROR evidence:", err)
 		return 2
 	}
@@ -419,6 +457,62 @@ func cmdRun(args []string) int {
 	}
 	fmt.Printf("OK property=%s tier=%s obligations=%d/%d paths=%d decisions=%d validated=%d wall=%.1fs\n", id, *tier, ev.Coverage.Discharged, ev.Coverage.Obligations, ev.Coverage.States, ev.Coverage.Transitions, ev.Coverage.TracesValidated, ev.WallS)
 	return 0
+}
+
+func firstEventDiff(native, engine []string) string {
+	for i := 0; i < len(native) || i < len(engine); i++ {
+		var a, b string
+		if i < len(native) {
+			a = native[i]
+		} else {
+			a = "<none>"
+		}
+		if i < len(engine) {
+			b = engine[i]
+		} else {
+			b = "<none>"
+		}
+		if a != b {
+			return fmt.Sprintf("event #%d native %q vs engine %q (native %d events, engine %d)", i, a, b, len(native), len(engine))
+		}
+	}
+	return "no difference found"
+}
+
+func firstNonEmpty(a, b string) string {
+	if a != "" {
+		return a
+	}
+	return b
+}
+
+// diffVerdicts compares per-assertion verdict counts of two explorations (sat/unsat/concrete-*).
+func diffVerdicts(a, b map[string]map[string]int) string {
+	var out []string
+	keys := map[string]bool{}
+	for k := range a {
+		keys[k] = true
+	}
+	for k := range b {
+		keys[k] = true
+	}
+	for k := range keys {
+		va, vb := a[k], b[k]
+		vs := map[string]bool{}
+		for x := range va {
+			vs[x] = true
+		}
+		for x := range vb {
+			vs[x] = true
+		}
+		for x := range vs {
+			if va[x] != vb[x] {
+				out = append(out, fmt.Sprintf("%s/%s %d vs %d", k, x, va[x], vb[x]))
+			}
+		}
+	}
+	sort.Strings(out)
+	return strings.Join(out, "; ")
 }
 
 func firstLine(s string) string {
@@ -564,4 +658,4 @@ func writeEvidence(ev *evidence) error {
 	return os.WriteFile(filepath.Join(verifDir, "evidence", ev.PropertyID+".json"), b, 0o644)
 }
 
-func cmdSelftest(args []string) int { return selftest() }
+func cmdSelftest(args []string) int { return selftest(args) }
